@@ -362,6 +362,8 @@ func runCase(c *wk.Ctx, i int) {
 				var err error
 				nrec := 1
 				atomic.AddInt64(&calls, 1)
+				syncsBefore := st.Count(vstor.OpSync, storage.TypeJournal)
+				viaTransaction := false
 				switch x := rr.Intn(10); {
 				case x < 4:
 					sz := 10 + rr.Intn(100)
@@ -388,7 +390,17 @@ func runCase(c *wk.Ctx, i int) {
 							b.Put([]byte(fmt.Sprintf("w%02d/%d", w, j)), model.Value(uint32(w), uint32(n), uint32(j), sz))
 						}
 					}
+					viaTransaction = b.Dump() != nil && len(b.Dump()) > os.O.WriteBuffer && !os.O.DisableLargeBatchTransaction
 					err = db.Write(b, wo)
+				}
+				if err == nil && wo.Sync && !viaTransaction && st.Count(vstor.OpSync, storage.TypeJournal) == syncsBefore {
+					// a group becomes durable together: a writer that asked for Sync was acknowledged, so the
+					// journal must have been synced at some point during its call (by its leader or itself)
+					fail("sync-wish-dropped", "a write with Sync:true was acknowledged although the journal was not synced at any time during the call", nil)
+					return
+				}
+				if err == nil && wo.Sync {
+					c.Count("synced_writes_checked", 1)
 				}
 				atomic.AddInt64(&returns, 1)
 				a.returned(gid, err)
